@@ -579,6 +579,14 @@ func wrapsWriter(v ssa.Value, is func(ssa.Value) bool, depth int) bool {
 	if is(v) {
 		return true
 	}
+	if ph, ok := v.(*ssa.Phi); ok {
+		for _, e := range ph.Edges {
+			if wrapsWriter(e, is, depth+1) {
+				return true
+			}
+		}
+		return false
+	}
 	if call, ok := v.(*ssa.Call); ok && calleeID(call) == "io.MultiWriter" {
 		for _, a := range call.Call.Args {
 			if sl, ok := a.(*ssa.Slice); ok {
